@@ -108,3 +108,57 @@ func runFileLogger(prev []byte, lines []string) (string, error) {
 	b, err := os.ReadFile(path)
 	return HEX(b), err
 }
+
+// twoFileLoggers: two loggers on one file (a second tool, or a second device, logging to the same path) and a third
+// party appending meanwhile: each logger, once closed, has appended its lines after what the file held at that moment
+func twoFileLoggers(prev []byte, a1, b, a2 []string, other []byte) (got, want string, err error) {
+	f, err := os.CreateTemp("", "verif-filelog2-*")
+	if err != nil {
+		return "", "", err
+	}
+	path := f.Name()
+	defer os.Remove(path)
+	f.Write(prev)
+	f.Close()
+	la, err := vedirectapi.NewFileLogger(path)
+	if err != nil {
+		return "", "", err
+	}
+	for _, l := range a1 {
+		la.Println(l)
+	}
+	lb, err := vedirectapi.NewFileLogger(path)
+	if err != nil {
+		return "", "", err
+	}
+	for _, l := range b {
+		lb.Println(l)
+	}
+	if err := lb.Close(); err != nil {
+		return "", "", err
+	}
+	if len(other) > 0 {
+		o, err := os.OpenFile(path, os.O_APPEND|os.O_WRONLY, 0)
+		if err != nil {
+			return "", "", err
+		}
+		o.Write(other)
+		o.Close()
+	}
+	for _, l := range a2 {
+		la.Println(l)
+	}
+	if err := la.Close(); err != nil {
+		return "", "", err
+	}
+	w := append([]byte(nil), prev...)
+	for _, l := range b {
+		w = append(append(w, l...), '\n')
+	}
+	w = append(w, other...)
+	for _, l := range append(append([]string(nil), a1...), a2...) {
+		w = append(append(w, l...), '\n')
+	}
+	bs, err := os.ReadFile(path)
+	return HEX(bs), HEX(w), err
+}
